@@ -91,6 +91,12 @@ func (r *registry) mkPay(kind, tok string) any {
 		return tokStruct{Tok: tok, N: 7}
 	case "nil":
 		return nil
+	case "nilptr": // typed nils must keep their type through every hand-over
+		return (*tokBox)(nil)
+	case "nilmap":
+		return map[string]any(nil)
+	case "nilslice":
+		return []string(nil)
 	case "result":
 		// a payload that is itself a flyt.Result (struct / plain nodes only: the
 		// framework must hand it on untouched)
@@ -106,8 +112,8 @@ func (r *registry) mkPay(kind, tok string) any {
 
 func payDesc(kind, tok string) string {
 	switch kind {
-	case "nil":
-		return "nil"
+	case "nil", "nilptr", "nilmap", "nilslice":
+		return kind
 	case "result":
 		return "WR(" + tok + ")"
 	}
@@ -170,6 +176,9 @@ func (r *registry) describe(v any) string {
 		}
 		return "?string:" + strings.ReplaceAll(x, " ", "_")
 	case map[string]any:
+		if x == nil {
+			return "nilmap"
+		}
 		tok, _ := x["tok"].(string)
 		r.mu.Lock()
 		orig := r.vals[tok]
@@ -179,6 +188,9 @@ func (r *registry) describe(v any) string {
 		}
 		return tok + "(copy)"
 	case []string:
+		if x == nil {
+			return "nilslice"
+		}
 		if len(x) != 1 {
 			return fmt.Sprintf("?[]string:%v", x)
 		}
@@ -191,7 +203,7 @@ func (r *registry) describe(v any) string {
 		return x[0] + "(copy)"
 	case *tokBox:
 		if x == nil {
-			return "?nil-ptr"
+			return "nilptr"
 		}
 		r.mu.Lock()
 		orig := r.vals[x.Tok]
